@@ -768,3 +768,39 @@ Proof.
   - unfold visit_of. rewrite rows_of_truncate_same, nth_error_firstn_ge by exact Hq.
     unfold visit_row. destruct bt1; [congruence| |]; rewrite crit_eq by in_list; reflexivity.
 Qed.
+
+(* ---- conflicting UUIDs: a start_new_flow row whose obj_id differs from the uuid the container
+        already has for that flow name *)
+Lemma step_row_flow_uuid_conflict s i old :
+  i_type i = TStartFlow -> i_inc i = true -> i_objid i <> [] ->
+  uget (uu_flows (f_uu s)) (i_main i) = Some old -> utruthy old = true -> uval_eqb (UGiven (i_objid i)) old = false ->
+  step_row s i = Err EUuidConflict.
+Proof.
+  intros Ht Hi Hu Hg Hold Hne.
+  unfold step_row. rewrite Hi. cbn [negb]. rewrite Ht. cbn [bind].
+  unfold row_action. rewrite Ht. cbn [bind].
+  unfold row_node, row_group_record. rewrite Ht. cbn [bind].
+  unfold row_flow_record. destruct (i_objid i) as [|c u] eqn:Eu; [congruence|].
+  unfold record, record_uuid. cbn [f_uu]. rewrite Hg, Hold. cbn [utruthy andb]. rewrite Hne. cbn [negb].
+  rewrite raise_eq by in_list. reflexivity.
+Qed.
+
+Theorem detect_flow_uuid_conflict_partial fuel wb dm d t0 p r s bt u name old :
+  compile fuel wb dm = Ok d ->
+  nth_error (rows_of wb t0) p = Some r -> r_type r = TStartFlow ->
+  evaluated_at fuel wb dm t0 p s bt ->
+  render (f_ctx s) (r_main r) = Ok name ->
+  uget (uu_flows (f_uu s)) name = Some old -> utruthy old = true ->
+  u <> [] -> uval_eqb (UGiven u) old = false ->
+  compile fuel (set_row wb t0 p (set_objid r u)) dm = Err EUuidConflict.
+Proof.
+  intros Hok Hr Ht Hev Hname Hg Hold Hu Hne.
+  destruct (evaluated_ok _ _ _ _ _ _ _ _ _ Hok Hr Hev) as (Hinc & i & st & Hi & _).
+  apply instantiate_some in Hi as (_ & id & es & m & l0 & Hid & Hes & Hm & Hl & _).
+  rewrite Hname in Hm. injection Hm as <-.
+  apply (row_fault_fatal fuel wb dm t0 p r (set_objid r u) s bt); try assumption; try reflexivity.
+  unfold visit_row. rewrite instantiate_unfold.
+  cbn [set_objid r_inc r_id r_edges r_main r_list r_type r_vars r_save r_objid r_noresp r_url r_headers r_dsheet r_drow r_targs].
+  rewrite Hinc, Hid, Hes, Hname, Hl. cbn [i_type]. rewrite Ht.
+  rewrite (step_row_flow_uuid_conflict s _ old); [reflexivity| | | | | |]; cbn [i_type i_inc i_main i_objid]; auto.
+Qed.
